@@ -150,12 +150,22 @@ impl Cleanable {
         // Try upgrading to see if the CleanerMap hasn't been deallocated
         let Some(cc) = self.cleaner_map.upgrade() else { return };
 
-        // Just return in case try_borrow_mut fails
-        let Ok(mut map) = cc.map.try_borrow_mut() else {
-            crate::utils::cold(); // Should never happen
-            return;
+        let action = {
+            // Just return in case try_borrow_mut fails
+            let Ok(mut map) = cc.map.try_borrow_mut() else {
+                crate::utils::cold(); // Should never happen
+                return;
+            };
+            map.remove(self.key)
         };
-        let _ = map.remove(self.key);
+
+        // Release the CleanerMap before running the cleaning action. Otherwise, if the action drops the Cleaner,
+        // the pointer upgraded above would keep the map (and the other registered actions) alive until this method
+        // returns, so the remaining actions wouldn't run when the Cleaner is dropped
+        drop(cc);
+
+        // Run the cleaning action (if it hasn't been run yet)
+        drop(action);
     }
 }
 
